@@ -47,7 +47,7 @@ def reach_exact(m, k):
     return cur
 
 
-def cases(tier, rng, dist):
+def _cases(tier, rng, dist):
     shapes = [(2, 2), (2, 3), (3, 2)] + ([(3, 3), (2, 4)] if tier == "thorough" else [])
     for (R, C) in shapes:
         for cells in itertools.product((0, 1), repeat=R * C):
@@ -90,7 +90,7 @@ def cases(tier, rng, dist):
             yield {"m": m, "k": rng.randint(1, 5), "real_seed": real_seed(rng)}
 
 
-def run(c):
+def _run(c):
     if "bad" in c:
         a = np.array(c["m"])
         return {"r": list(guarded(lambda: pifs(a, k=c["k"], seed=5).tolist(), secs=10))}
@@ -209,3 +209,28 @@ def nontrivial(c, o):
 
 def key(c):
     return json.dumps(c, sort_keys=True)
+
+
+# ---- failure paths (round 12): every third case is preceded by calls that the library rejects, or that fail inside a user
+# callable; they raise on the unchanged tree and must leave nothing behind (common.fail_first) ----
+
+def failing_calls(c):
+    k = c["ff"] % 3
+    # six rows, only rows 0 and 1 can be swapped (14 of the 15 row pairs are dead): the generator fails in the middle of the search
+    m6 = np.array([[1, 0, 0], [0, 1, 0], [1, 1, 1], [0, 0, 0], [1, 1, 1], [0, 0, 0]])
+    m4 = np.array([[1, 1, 1, 1], [0, 0, 0, 0], [1, 0, 1, 0], [0, 1, 0, 1]])
+    return [("generator fails during the search for a swappable pair", lambda: pifs([m6, m4, m6[::-1].copy()][k], k=3, seed=dying_sha(11 + c["ff"], 2 + c["ff"] % 5))),
+            [("non-binary matrix", lambda: pifs(np.array([[0, 2], [1, 0]]), k=1, seed=3)), ("1-d input", lambda: pifs(np.array([0, 1, 1]), k=1, seed=3)),
+             ("negative k", lambda: pifs(np.array([[0, 1], [1, 0]]), k=-1, seed="x"))][k]]
+
+
+def cases(tier, rng, dist):
+    return mark_ff(_cases(tier, rng, dist))
+
+
+def run(c):
+    ff = fail_first(failing_calls(c)) if "ff" in c else None
+    o = _run(c)
+    if ff is not None and isinstance(o, dict):
+        o["ff"] = ff
+    return o
